@@ -303,6 +303,174 @@ def model_shape(ctx, stream, count, rng):
     ctx.streams[stream] = dict(cases=len(cases), deviations=bad)
 
 
+# ------------------------------------------------------------------ Baldwin against Model/Elimination.v (units 111 / 112)
+SCORERS = [('borda0', [1, 0]), ('borda1', [1, 1]), ('dowdall', [2]), ('geometric2', [3, 2]), ('modified', [4]), ('fixedtop2', [5, 2])]
+
+
+def mk_scorer(code):
+    import votelib.component.rankscore as rs
+    k = code[0]
+    return {1: lambda: rs.Borda(base=code[1]), 2: lambda: rs.Dowdall(), 3: lambda: rs.Geometric(code[1]), 4: lambda: rs.ModifiedBorda(),
+            5: lambda: rs.FixedTop(code[1])}[k]()
+
+
+def bald_line(c):
+    if c['unit'] == 'neg_scores':
+        return '%d (%s %s)' % (BLOCK['C08'] + 2, sx(c['scorer']), sx(c['profile']))
+    return '%d (%s %s %d)' % (BLOCK['C08'] + 1, sx(c['scorer']), sx(c['profile']), c['n'])
+
+
+def bald_eval(c):
+    import votelib.evaluate.sequential as seq, votelib.convert as conv
+    ev = seq.Baldwin(conv.RankedToPositionalVotes(rank_scorer=mk_scorer(c['scorer'])))
+    py = evalreg.to_python('ranked', c['profile'])
+    if c['unit'] == 'neg_scores':
+        return ev, ev._compute_negative_scores(py)
+    return ev, ev.evaluate(py, c['n'])
+
+
+def bald_impl(c):
+    import votelib.evaluate.core as core
+    _ev, r = bald_eval(c)
+    if c['unit'] == 'neg_scores':
+        return common.ok([[cnum(k), common.q(v)] for k, v in r.items()])
+    return common.ok([sorted(cnum(x) for x in e) if isinstance(e, core.Tie) else cnum(e) for e in r])
+
+
+def bald_canon(c, wire):
+    v = common.parse_sx(wire)
+    if v[0] != 0:
+        return ('err', v[1])
+    # the iteration order of a frozenset (shared rank) is not specified: where the profile has shared ranks, candidates with
+    # equal scores may come in either order - the dictionary is compared as a set of items, the selection as plain winners
+    # (sorted) followed by its tie objects; without shared ranks the exact order is compared
+    shared = evalreg.has_shared(c['profile'])
+    if c['unit'] == 'neg_scores':
+        items = tuple((k, common.unq(x)) for k, x in v[1])
+        return ('ok', tuple(sorted(items)) if shared else items)
+    sel = tuple(tuple(sorted(e)) if isinstance(e, list) else e for e in v[1])
+    if shared:
+        sel = tuple(sorted(x for x in sel if not isinstance(x, tuple))) + tuple(x for x in sel if isinstance(x, tuple))
+    return ('ok', sel)
+
+
+def wf_ranked(prof):
+    """no candidate twice on a ballot, no empty shared rank, no negative weight (the hypotheses of C08_shape_baldwin)"""
+    for b, w in prof:
+        flat = [x for it in b for x in (it if isinstance(it, list) else [it])]
+        if len(set(flat)) != len(flat) or any(isinstance(it, list) and not it for it in b) or common.q(w) < 0:
+            return False
+    return True
+
+
+def py_shape(cands, n, val):
+    """the declarative clause of Proofs/Shape_proofs.v sel_shape on a canonical selection (ties = sorted tuples)"""
+    plain = [x for x in val if not isinstance(x, tuple)]
+    ties = [x for x in val if isinstance(x, tuple)]
+    if len(val) != n or len(set(plain)) != len(plain) or any(x not in cands for x in plain):
+        return False
+    for t in set(ties):
+        if len(set(t)) != len(t) or any(x not in cands or x in plain for x in t) or ties.count(t) >= len(t):
+            return False
+    return True
+
+
+_BALD_DIST = {}
+
+
+def bald_spec(c, io, mo):
+    """C08_shape_baldwin on the implementation's own answer: a well-formed profile and 1 <= n <= candidates -> a well-shaped
+    selection of exactly n entries, never an exception"""
+    v = common.parse_sx(io)
+    key = 'baldwin-outcome:' + ('err-' + common.E_NAME.get(v[1], str(v[1])) if v[0] != 0 else c['unit'] + ('-tie' if any(isinstance(e, list) for e in v[1]) and c['unit'] == 'baldwin' else ''))
+    _BALD_DIST[key] = _BALD_DIST.get(key, 0) + 1
+    if c['unit'] != 'baldwin' or not wf_ranked(c['profile']):
+        return None
+    cands = evalreg.candidates_of('ranked', c['profile'])
+    if not 1 <= c['n'] <= len(cands):
+        return None
+    r = bald_canon(c, io)
+    if r[0] != 'ok':
+        c['_class'] = 'crash:' + common.E_NAME.get(r[1], str(r[1]))
+        return 'Baldwin raises %s on a well-formed profile' % common.E_NAME.get(r[1], str(r[1]))
+    if not py_shape(cands, c['n'], list(r[1])):
+        c['_class'] = shape_class(cands, c['n'], list(r[1]))
+        return 'Baldwin: selection %s does not have the shape of %d seats over candidates %s' % (list(r[1]), c['n'], cands)
+    return None
+
+
+def bald_nontrivial(c):
+    return c['unit'] == 'baldwin' and c.get('_style') in ('sym', 'tiedlosers', 'alltied')
+
+
+def gen_bald_ballot(rng, ids, shared_p):
+    perm = ids[:]
+    rng.shuffle(perm)
+    r = rng.random()
+    if r < 0.15:
+        perm = perm[:1]
+    elif r < 0.5:
+        perm = perm[:rng.randint(1, len(perm))]
+    out, i = [], 0
+    while i < len(perm):
+        if rng.random() < shared_p and i + 1 < len(perm):
+            k = rng.randint(2, min(3, len(perm) - i))
+            out.append(sorted(perm[i:i + k]))
+            i += k
+        else:
+            out.append(perm[i])
+            i += 1
+    return out
+
+
+def gen_baldwin(rng, count):
+    import json
+    for _ in range(count):
+        m = 1 if rng.random() < 0.03 else rng.choice([2, 3, 3, 4, 4, 5, 6])
+        ids = list(range(1, m + 1))
+        shared_p = rng.choice([0, 0, 0.2, 0.4])
+        style = rng.random()
+        prof = {}
+        tag = 'random'
+        if style < 0.12 and m >= 3:
+            # two or three candidates always ranked together at the bottom (tied losers), the others above them in turn
+            tag = 'tiedlosers'
+            k = rng.randint(2, m - 1)
+            low, top = ids[:k], ids[k:]
+            for _b in range(rng.randint(1, 4)):
+                t = top[:]
+                rng.shuffle(t)
+                b = t + ([sorted(low)] if rng.random() < 0.7 else [])
+                prof[json.dumps(b)] = prof.get(json.dumps(b), 0) + rng.randint(1, 3)
+        elif style < 0.2:
+            tag = 'alltied'
+            b = [sorted(ids)] if m > 1 else ids
+            prof[json.dumps(b)] = rng.randint(0, 3)
+        else:
+            wmax = rng.choice([1, 2, 5, 5, 10 ** 20])
+            for _b in range(rng.randint(1, 7)):
+                b = gen_bald_ballot(rng, ids, shared_p)
+                prof[json.dumps(b)] = prof.get(json.dumps(b), 0) + rng.randint(0 if rng.random() < 0.08 else 1, wmax)
+        profile = [[json.loads(b), w] for b, w in prof.items()]
+        if tag == 'random' and rng.random() < 0.45:
+            profile = symmetrise(rng, 'ranked', profile)
+            tag = 'sym'
+        if rng.random() < 0.02:
+            # malformed: an empty shared rank in front (more ranks than candidates for a full ballot: ValueError of Borda)
+            profile = [[[[]] + b, w] for b, w in profile]
+            tag = 'emptyrank'
+        k = len(evalreg.candidates_of('ranked', profile))
+        sc = SCORERS[0][1] if rng.random() < 0.6 else rng.choice(SCORERS)[1]
+        if rng.random() < 0.12:
+            yield dict(kind='baldwin', unit='neg_scores', scorer=sc, profile=profile, n=0, _style=tag)
+        else:
+            n = rng.choice([rng.randint(1, max(1, k)), rng.randint(1, max(1, k)), max(1, k - 1), k, 0, k + 1, 1])
+            yield dict(kind='baldwin', unit='baldwin', scorer=sc, profile=profile, n=n, _style=tag)
+
+
+BALD_KW = dict(canon=bald_canon, nontrivial=bald_nontrivial, spec=bald_spec, known_class=None, limit=20)
+
+
 def coverage(ctx):
     """which public evaluator classes of votelib.evaluate.* are exercised by this sweep"""
     import votelib.evaluate.core as core, votelib.evaluate.sequential as seq, votelib.evaluate.proportional as prop
@@ -353,13 +521,25 @@ def replay_case(ctx, c, stream):
 
 def explore(ctx, widen=1):
     rng = ctx.rng
-    for c in corpus():
-        replay_case(ctx, c, 'corpus')
+    cp = list(corpus())
+    for c in cp:
+        if c.get('kind') != 'baldwin':
+            replay_case(ctx, c, 'corpus')
+    ctx.differential('corpus-baldwin', [c for c in cp if c.get('kind') == 'baldwin'], bald_line, bald_impl, **BALD_KW)
     model_shape(ctx, 'model-shape', ctx.n(300, 3000), rng)
     sweep(ctx, 'sweep', ctx.n(5000, 80000) * widen, rng)
     sweep(ctx, 'sym-sweep', ctx.n(5000, 60000) * widen, rng, gen_symmetric)
+    cases = list(gen_baldwin(rng, ctx.n(4000, 60000) * widen))
+    for c in cases:
+        ctx.dist['baldwin:' + c['_style']] += 1
+    ctx.differential('baldwin', cases, bald_line, bald_impl, **BALD_KW)
+    for k, v in _BALD_DIST.items():
+        ctx.dist[k] += v
     coverage(ctx)
 
 
 def replay(ctx, case, stream=None):
+    if case.get('kind') == 'baldwin':
+        ctx.differential('replay', [case], bald_line, bald_impl, **BALD_KW)
+        return
     replay_case(ctx, case, 'replay')
